@@ -410,6 +410,13 @@ def job_membercols(res, rng, w, home, job):
             zi.compress_type = zipfile.ZIP_DEFLATED
             z.writestr(zi, b"\0" * size)
             members.append((nm, size))
+        # members without a stored unix mode (what `jar` writes): no permission bit and no special type is set for them -
+        # certainly not the bits of the archive file, which is rwxrwxrwx here
+        nomode = set(nm for nm, _sz in rng.sample(members, min(2, len(members))) if not nm.endswith("/"))
+        for zi in z.filelist:
+            if zi.filename in nomode:
+                zi.external_attr = 0
+    os.chmod(os.path.join(root, "pack.zip"), 0o6777)
     for size in set(sz for _n, sz in members):
         with open(os.path.join(root, "sz%d" % size), "wb") as f:
             f.truncate(size)
@@ -420,7 +427,8 @@ def job_membercols(res, rng, w, home, job):
     except (OSError, KeyError, ImportError) as e:
         res.inc("cannot read the default configuration: %s" % e)
         return
-    cols = ["path", "size", "fsize", "dir", "is_empty"] + EXT_CLASSES
+    PERMS = ["user_read", "user_exec", "group_write", "other_write", "other_exec", "suid", "sgid", "is_pipe", "is_socket"]
+    cols = ["path", "size", "fsize", "dir", "is_empty"] + EXT_CLASSES + PERMS
     q = "%s from m archives into list" % ", ".join(cols)
     r = q_run(res, w, home, q)
     ctx = {"query": q, "members": members, "result": r.brief()}
@@ -443,6 +451,13 @@ def job_membercols(res, rng, w, home, job):
         low = model.ascii_lower(nm)
         for c in EXT_CLASSES:
             want[c] = b(any(low.endswith(x) for x in model.EXT_LISTS[c]))
+        if nm in nomode:
+            for c in PERMS:
+                want[c] = "false"
+            res.count("members_without_stored_mode")
+        elif not nm.endswith("/"):      # stored as a regular file, rw-r--r--
+            want.update({"user_read": "true", "user_exec": "false", "group_write": "false", "other_write": "false", "other_exec": "false",
+                         "suid": "false", "sgid": "false", "is_pipe": "false", "is_socket": "false"})
         for c, v in want.items():
             if v is not None and cells[c] != v:
                 res.viol("member %r (stored size %d): %s printed %r, expected %r" % (nm, size, c, cells[c], v), ctx)
